@@ -6,8 +6,52 @@
   with arbitrary job outcomes) and the state `s` it leads to from `init c`.
 -/
 import CffVerif.Sched.Simple
+import CffVerif.Sched.LogInv
 
 namespace Sched
+
+/-! ### C01 — no job before its dependencies succeeded; never twice -/
+
+/-- Whenever a job's body starts, every dependency it names (duplicates, any fan-in, registered
+    before or after the dependency finished) has already **ended without error** — for every DAG,
+    every `N ≥ 1`, both error modes, every pacing and interleaving. -/
+theorem C01_deps_before_start (c : Cfg) (hw : c.wiring = Wiring.std) (hwf : WfCfg c)
+    (acts : List Act) (s : State) (hr : run c (init c) acts = some s) (i j : Nat)
+    (hi : s.log[i]? = some (Ev.started j)) :
+    ∀ d ∈ c.depsOf j, ∃ k, k < i ∧ s.log[k]? = some (Ev.ended d .ok) :=
+  (allInv_run hw hwf acts s hr).i3.depsBefore i j hi
+
+/-- No job body is started more than once. -/
+theorem C01_at_most_once (c : Cfg) (hw : c.wiring = Wiring.std) (hwf : WfCfg c)
+    (acts : List Act) (s : State) (hr : run c (init c) acts = some s) (j : Nat) :
+    s.log.count (Ev.started j) ≤ 1 :=
+  (allInv_run hw hwf acts s hr).i3.once j
+
+/-- Non-vacuity: a diamond with a duplicated dependency, job 3 enqueued after job 1 already
+    finished (the "dependency already done" branch), run to the start of job 3 on two workers. -/
+example :
+    let c : Cfg := { N := 2, coe := false, emit := false, deps := [[], [0], [0, 0], [1, 2, 1]] }
+    ∃ s, run c (init c)
+      [.callerSend, .loopEnq, .callerSend, .loopEnq, .callerSend, .loopEnq,
+       .loopDispatch 0, .workerDecide 0, .workerEnd 0 .ok false, .workerPost 0, .loopResult,
+       .loopDispatch 0, .loopDispatch 1, .workerDecide 0, .workerDecide 1,
+       .workerEnd 0 .ok false, .workerPost 0, .loopResult,
+       .callerSend, .loopEnq,
+       .workerEnd 1 .ok false, .workerPost 1, .loopResult,
+       .loopDispatch 1, .workerDecide 1] = some s
+      ∧ s.log.getLast? = some (Ev.started 3) ∧ wfCfgB c = true := by
+  decide
+
+/-- Without the worker's `invalid` check a job runs although its dependency failed
+    (ContinueOnError): the flag matters, the theorem is not vacuous. -/
+example :
+    let c : Cfg := { N := 1, coe := true, emit := false, deps := [[], [0]],
+                     wiring := { workerChecksInvalid := false } }
+    ∃ s, run c (init c)
+      [.callerSend, .loopEnq, .callerSend, .loopEnq, .loopDispatch 0, .workerDecide 0,
+       .workerEnd 0 (.fail 7) false, .workerPost 0, .loopResult, .loopDispatch 0, .workerDecide 0] = some s
+      ∧ s.log.getLast? = some (Ev.started 1) ∧ Ev.ended 0 .ok ∉ s.log := by
+  decide
 
 /-! ### C03 — bounded concurrency -/
 
